@@ -68,15 +68,33 @@ fn main() {
             }
             let mut run_rng = rng::Rng::new(seed ^ 0x5555);
             let mut written = 0usize;
-            // --vm: run every case once, in form "vm" (compiled code and interpreter steps recorded)
+            // --vm: an evenly spread sample of about n cases, each run once in form "vm" (compiled code and
+            // interpreter steps recorded); cases marked for a child process stay in one, since a crash of the
+            // code under test must not take the driver down
             let vm_form = args.iter().any(|a| a == "--vm");
+            let mut stride = 1usize;
+            if vm_form {
+                let mut total = 0usize;
+                {
+                    let mut count_only = |_c: run::Case| total += 1;
+                    let mut cx = gen::Ctx { rng: rng::Rng::new(seed), thorough, n, emit: &mut count_only, count: 0, prefix: topic.clone() };
+                    if !gen::run_topic(&topic, &mut cx) {
+                        eprintln!("unknown topic {}", topic);
+                        std::process::exit(2);
+                    }
+                }
+                stride = std::cmp::max(1, total / std::cmp::max(1, n));
+            }
+            let offset = (seed as usize) % stride;
+            let mut index = 0usize;
             {
                 let mut emit = |mut c: run::Case| {
+                    index += 1;
                     if vm_form {
-                        c.forms = vec!["vm".to_string()];
-                        if let Some(o) = c.extra.as_object_mut() {
-                            o.remove("child");
+                        if (index - 1) % stride != offset {
+                            return;
                         }
+                        c.forms = vec!["vm".to_string()];
                     }
                     let o = run::run_case(&c, &mut run_rng);
                     writeln!(out, "{}", o).unwrap();
